@@ -37,10 +37,10 @@ SPECS = {
     "C03": {
         "corr": ["RGA", "RGA2", "ERHT", "Proto"],
         "engines": [
-            {"name": "hist", "tag": "c03", "extra": "prop=C03", "n": {"quick": 500, "thorough": 8000}},
+            {"name": "hist", "tag": "c03", "extra": "prop=C03", "n": {"quick": 2000, "thorough": 10000}},
             {"name": "rga", "n": {"quick": 300, "thorough": 4000}, "seed_off": 7},
         ],
-        "explanation": "Theorems: purging dead positions never changes the visible array; a purge decided with the minimum vector is justified by every vector it was computed from; the response vector is that minimum (and none is sent on push-only responses). Twin-run oracle on real histories: the same history with an extra idle attached client (which pins the minimum vector, so nothing is ever purged) must end in the same content, with no sync error on either side.",
+        "explanation": "Theorem C03_minimum_vector_is_safe: on the protocol model, for every reachable state of honest clients whose vectors only grow and every sync handled in one piece, the response vector never covers knowledge that an unsent change of another client lacks, and everything stored has been delivered (GC safety); refuted for a handler that reads the pull range before the minimum (finding P11, also exercised on the real server by holding a sync at a storage call). Theorems: purging dead positions never changes the visible array; a purge decided with the minimum vector is justified by every vector it was computed from; the response vector is that minimum (and none is sent on push-only responses). Twin-run oracle on real histories: the same history with an extra idle attached client (which pins the minimum vector, so nothing is ever purged) must end in the same content, with no sync error on either side.",
         "assumptions": [
             "PARTIAL: 'content(GC on) = content(GC off) for every history' is decided by the twin-run oracle, not by a theorem",
         ],
